@@ -256,10 +256,11 @@ func checkC15(c *Check) {
 	c.Rule("R5", "E5 who-may-call ban", "nothing reachable while serving exits the process or the goroutine", 2)
 	reqList := p.REQList()
 	ban := []string{"os.Exit", "log.Fatal", "(*log.Logger).Fatal", "(*github.com/charmbracelet/log.Logger).Fatal", "github.com/charmbracelet/log.Fatal", "runtime.Goexit", "syscall.Exit", "syscall.Kill"}
-	ctl := bannedCalls(p, reqList, []string{"fmt.Sprintf"})
-	c.Cond(len(ctl) > 0, "E5:ban-control", "checker", "positive control: the ban matcher finds the fmt.Sprintf calls that exist in the request phase", "positive control failed: the ban matcher matches nothing")
+	ctlName := firstCallName(reqList)
+	ctl := bannedCalls(p, reqList, []string{ctlName})
+	c.Cond(len(ctl) > 0 && ctlName != "", "E5:ban-control", "checker", "positive control: the ban matcher finds the existing call "+ctlName+" in the request phase", "positive control failed: the ban matcher matches nothing")
 	if len(ctl) > 0 {
-		c.Controls = append(c.Controls, "ban-matcher:fmt.Sprintf")
+		c.Controls = append(c.Controls, "ban-matcher:"+ctlName)
 	}
 	hits := bannedCalls(p, reqList, ban)
 	for _, h := range hits {
